@@ -42,6 +42,7 @@ type interp struct {
 	freezeEv  []string
 	overrides map[string]value
 
+	curInstr       ssa.Instruction
 	noExt          string
 	spec           int
 	noMerge        bool
@@ -193,6 +194,7 @@ func (in *interp) step(fr *frame) {
 
 func (in *interp) visitInstr(fr *frame, instr ssa.Instruction) int {
 	in.step(fr)
+	in.curInstr = instr
 	switch instr := instr.(type) {
 	case *ssa.DebugRef:
 	case *ssa.UnOp:
@@ -250,17 +252,31 @@ func (in *interp) visitInstr(fr *frame, instr ssa.Instruction) int {
 		}
 		store(mustDeref(instr.Addr.Type()), addr, fr.get(instr.Val))
 	case *ssa.If:
-		succ := 1
 		c := fr.get(instr.Cond)
+		cur := fr.block
+		s0, s1 := cur.Succs[0], cur.Succs[1]
+		for {
+			s, ok := c.(*Sym)
+			if !ok {
+				break
+			}
+			nb, nc, ns0, ns1, folded := in.foldShortCircuit(fr, cur, s, s0, s1)
+			if !folded {
+				break
+			}
+			cur, c, s0, s1 = nb, nc, ns0, ns1
+		}
+		fr.block = cur
 		if s, ok := c.(*Sym); ok {
-			if in.tryMerge(fr, instr, s) {
+			if in.tryMerge(fr, cur, s0, s1, s) {
 				return kJump
 			}
 		}
 		if in.truth(c) {
-			succ = 0
+			fr.jump(s0)
+		} else {
+			fr.jump(s1)
 		}
-		fr.jump(fr.block.Succs[succ])
 		return kJump
 	case *ssa.Jump:
 		fr.jump(fr.block.Succs[0])
